@@ -36,6 +36,8 @@ def call(seq, case, blob=None, step=None, warm=False):
               stepSize=step if step is not None else case["s"], wordSize=case.get("word", 3))
     if case.get("user"):
         kw["userAlphabet"] = dict(case["user"])
+    elif (len(seq) + kw["blobLen"]) % 3 == 0:
+        kw["userAlphabet"] = {}      # the signature's own default, spelled out by the caller: still "no user alphabet"
     return o.get_linear_complexity(**kw)
 
 
